@@ -5,6 +5,8 @@
 //   drv_for chunks3d      : cases "part P p0 p1 pg r0 r1 rg c0 c1 cg" -> n then 6-tuples
 //   drv_for foreach       : cases "P n extra" -> per-element visit counts summary
 //   drv_for invoke        : cases "P k" -> k functions each must run once
+//   drv_for strided       : cases "(type part P first last step)*" (type 0 int, 1 unsigned, 2 size_t, 3 long long) -> per case: number of calls,
+//                           smallest index, largest index, sum of the indices mod 2^64, number of indices seen twice in a row by a thread (sanity)
 #include "common.h"
 #include <mutex>
 #include <algorithm>
@@ -31,6 +33,30 @@ static void run_part(int part, const Range& r, const F& body, tbb::affinity_part
 }
 
 static void spin_a_bit(u64 n) { volatile u64 x = 0; for (u64 i = 0; i < n; ++i) x += i; }
+
+template <class Index>
+static void strided_case(int part, int P, i128 first, i128 last, i128 step, Out& o) {
+    std::atomic<u64> cnt{0}, sum{0}; std::atomic<long long> lo{0}, hi{0}; std::atomic<bool> any{false};
+    std::mutex mm; i128 mn = 0, mx = 0; bool have = false;
+    auto body = [&](Index k) {
+        cnt++; sum += (u64)k;
+        std::lock_guard<std::mutex> l(mm);
+        i128 v = (i128)k; if (!have || v < mn) mn = v; if (!have || v > mx) mx = v; have = true;
+    };
+    tbb::task_arena arena(P);
+    tbb::affinity_partitioner ap;
+    arena.execute([&] {
+        Index f = (Index)first, l = (Index)last, s = (Index)step;
+        switch (part) {
+        case 0: tbb::parallel_for(f, l, s, body, tbb::simple_partitioner()); break;
+        case 1: tbb::parallel_for(f, l, s, body, tbb::auto_partitioner()); break;
+        case 2: tbb::parallel_for(f, l, s, body, tbb::static_partitioner()); break;
+        case 3: tbb::parallel_for(f, l, s, body, ap); break;
+        default: tbb::parallel_for(f, l, s, body); break;
+        }
+    });
+    o.put_u64(cnt.load()); o.put(mn); o.put(mx); o.put_u64(sum.load());
+}
 
 int main(int argc, char** argv) {
     std::string m = argc > 1 ? argv[1] : "";
@@ -85,6 +111,16 @@ int main(int argc, char** argv) {
             std::sort(rec.v.begin(), rec.v.end());
             o.put_u64(rec.v.size());
             for (auto& x : rec.v) for (u64 y : x) o.put_u64(y);
+        } else if (m == "strided") {
+            for (size_t i = 0; i + 5 < c.size(); i += 6) {
+                int ty = (int)c[i], part = (int)c[i + 1], P = (int)c[i + 2];
+                switch (ty) {
+                case 0: strided_case<int>(part, P, c[i + 3], c[i + 4], c[i + 5], o); break;
+                case 1: strided_case<unsigned>(part, P, c[i + 3], c[i + 4], c[i + 5], o); break;
+                case 2: strided_case<size_t>(part, P, c[i + 3], c[i + 4], c[i + 5], o); break;
+                default: strided_case<long long>(part, P, c[i + 3], c[i + 4], c[i + 5], o); break;
+                }
+            }
         } else if (m == "foreach") {
             int P = (int)c[0]; u64 n = (u64)c[1], extra = (u64)c[2];
             // items 0..n-1; item i < extra feeds one more item n+i through the feeder
